@@ -51,7 +51,19 @@ def species_checks():
         got = Species.from_formula(f, phases=ph, default_phase_idx=-1).phase_idx
         if got != idx:
             bad.append("%s with phases=%s default -1: phase_idx %s" % (f, ph, got))
+    # `phases` given as other mapping kinds (dict subclasses) reads the same as the plain dict
+    from collections import OrderedDict, defaultdict
+    for phm in (OrderedDict([("(g)", 2), ("(aq)", 0), ("(s)", 1)]), defaultdict(int, ph)):
+        for f, idx in (("Ca+2(aq)", 0), ("CaCO3(s)", 1), ("CO2(g)", 2), ("CO2", -1)):
+            got = Species.from_formula(f, phases=phm, default_phase_idx=-1).phase_idx
+            if got != idx:
+                bad.append("%s with phases=%r default -1: phase_idx %s" % (f, phm, got))
     subs = {k: Substance.from_formula(k) for k in ("H2O2", "O2", "H2O", "SO2", "SO3")}
+    # a float coefficient is printed with every digit needed to read the same float back
+    third = Reaction({"H2O2": 1}, {"O2": 1 / 3, "H2O": 0.1 + 0.2}, checks=())
+    for txt in (str(third), third.unicode(subs), third.latex(subs), third.html(subs)):
+        if str(1 / 3) + " " not in txt or str(0.1 + 0.2) + " " not in txt:
+            bad.append("float coefficients %r, %r printed as %r" % (1 / 3, 0.1 + 0.2, txt))
     r = Reaction({"H2O2": 1}, {"O2": 0.5, "H2O": 1}, checks=())
     e = Equilibrium({"SO2": 1, "O2": 0.5}, {"SO3": 1}, checks=())
     for got, exp in ((r.unicode(subs), "H₂O₂ → H₂O + 0.5 O₂"), (r.latex(subs), "H_{2}O_{2} \\rightarrow H_{2}O + 0.5 O_{2}"),
